@@ -50,6 +50,9 @@ Zero(n) == [k \in 1..n |-> 0]
 Plain(sig, resp, off, la) == PlainFrom(sig, Zero(Len(sig)), 0, resp, off, la)
 Fast(sig, resp, off, la) == FastFrom(sig, Zero(Len(sig)), 0, resp, off, la)
 SumSq(s) == FoldLeft(LAMBDA a, x : a + x * x, 0, s)
+\* TLC's integers are 32 bit: a sum of squares is only formed when it fits (Len(s) * max^2 < 2^31)
+AbsI(x) == IF x < 0 THEN 0 - x ELSE x
+Fits(s) == LET m == MaxS({AbsI(s[k]) : k \in 1..Len(s)} \cup {0}) IN m <= 46340 /\ m * m <= 2147483647 \div (Len(s) + 1)
 
 \* first strict minimum over the grid, row-major (offsets outer, look-aheads inner)
 Grid(offs, las) == FlattenSeq([a \in 1..Len(offs) |-> [b \in 1..Len(las) |-> <<offs[a], las[b]>>]])
@@ -62,4 +65,7 @@ PickFrom(sig, resp, grid, k, best, bestIn) ==
 \* (an empty grid, or a grid on which nothing fits, returns what the first cell returns: all zeros;
 \*  the production code starts from +infinity and an empty vector, which differs only for empty grids)
 LsPick(sig, resp, offs, las) == PickFrom(sig, resp, Grid(offs, las), 1, -1, Zero(Len(sig)))
+\* all residuals of the grid are small enough for their sums of squares to be formed
+GridFits(sig, resp, offs, las) ==
+  \A k \in 1..Len(Grid(offs, las)) : Fits(Plain(sig, resp, Grid(offs, las)[k][1], Grid(offs, las)[k][2]).residual)
 =============================================================================
